@@ -264,3 +264,110 @@ End Spec.
 Definition line_s (id : Z) (rows : list (option (list (Z * Z)))) (uuids : list string) (crlf trailing : bool)
            (req : request) (sr : search_result Z) (chains : list (list pcfg)) : string :=
   line "S" id (join " | " (map (spec_chain rows uuids req sr) chains ++ [spec_errpass rows; spec_tcount rows sr])).
+
+(* ====================================================================================
+   Long routes and big trees (1023 .. 5000 edges).  The case is a formula, not a literal: the
+   harness and this file generate the same route / tree / geometry table from (kind, n).  Printing
+   5000-edge structures would dominate the run, so every format's content is compared through a
+   digest of its flattened integer sequence (order-sensitive for routes, an order-insensitive sum
+   of entry digests for trees) together with its length; the harness adds, on the implementation
+   side, the first index at which two formats of the same route disagree (the specification says
+   they never do: "agree=T"). *)
+From Coq Require Import Uint63.
+
+Definition long_edge (kind n i : nat) : nat :=
+  match kind with
+  | 0 => i                                                       (* chain *)
+  | 1 => if Nat.even i then Nat.div2 i else n - 1 - Nat.div2 i   (* zig-zag: a permutation *)
+  | _ => if Nat.eqb i (n - n / 5) then n + 3 else i              (* chain, one edge without a row *)
+  end.
+Definition long_geom (e : nat) : list (Z * Z) :=
+  let z := Z.of_nat e in
+  [(z, Z.of_nat (e mod 7)); (z + 1, Z.of_nat ((e + 3) mod 5))]%Z
+  ++ (if Nat.eqb (e mod 3) 0 then [(z + 2, 1)]%Z else []).
+Definition long_trav (kind n i : nat) : trav :=
+  T (long_edge kind n i) (Z.of_nat (i mod 4)) (Z.of_nat (10 + i mod 13)) [Z.of_nat i].
+Definition long_rows (n : nat) : list (option (list (Z * Z))) := map (fun e => Some (long_geom e)) (seq 0 n).
+Definition long_route (kind n : nat) : list trav := map (long_trav kind n) (seq 0 n).
+Definition long_tree (kind n : nat) : list (nat * br) :=
+  map (fun i => (S i, B (Nat.div2 i) (long_trav kind n i))) (seq 0 n).
+
+Definition dstep (h : int) (x : Z) : int := (h * 1000003 + Uint63.of_Z x)%uint63.
+Definition dig (l : list Z) : Z := Uint63.to_Z (fold_left dstep l 7%uint63).
+Definition msum (ls : list (list Z)) : Z :=
+  Uint63.to_Z (fold_left (fun acc l => (acc + fold_left dstep l 7%uint63)%uint63) ls 0%uint63).
+
+Definition flat_pts (l : list (Z * Z)) : list Z := flat_map (fun p => [fst p; snd p]) l.
+Definition flat_trav (t : trav) : list Z :=
+  [Z.of_nat (edge_id t); access_cost t; traversal_cost t; Z.of_nat (List.length (result_state t))] ++ result_state t.
+Definition flat_feat (f : feature Z Z) : list Z :=
+  [Z.of_nat (f_id f); Z.of_nat (List.length (f_geom f))] ++ flat_pts (f_geom f) ++ flat_trav (f_props f).
+Definition show_dig (n : nat) (d : Z) : string := show_nat n ++ ":" ++ show_Z d.
+
+Definition dig_path (p : route_path Z Z) : string :=
+  match p with
+  | PIds l => show_dig (List.length l) (dig (map Z.of_nat l))
+  | PRecs l => show_dig (List.length l) (dig (flat_map flat_trav l))
+  | PFeats l => show_dig (List.length l) (dig (flat_map flat_feat l))
+  | PWkt g | PWkb g => show_dig (List.length g) (dig (flat_pts g))
+  end.
+Definition dig_tree (o : tree_out Z Z) : string :=
+  match o with
+  | TIds l => show_dig (List.length l) (msum (map (fun e => [Z.of_nat e]) l))
+  | TRecs l => show_dig (List.length l) (msum (map (fun b => Z.of_nat (terminal_vertex b) :: flat_trav (edge_traversal b)) l))
+  | TFeats l => show_dig (List.length l) (msum (map flat_feat l))
+  | TWkt g | TWkb g => show_dig (List.length g) (msum (map (fun l => Z.of_nat (List.length l) :: flat_pts l) g))
+  end.
+
+Definition long_fmt_m (kind n : nat) (with_tree : bool) (f : format) : string :=
+  format_name f ++ " " ++
+  match traversal_from_file (long_rows n) with
+  | Ok g =>
+      match apply_output_processing state_ok (ReqObj (FNat 0) (FNat 0))
+              (SOk [long_route kind n] (if with_tree then [long_tree kind n] else []))
+              [PlTraversal g (Some f) (Some f)] with
+      | Ok r => "r=" ++ show_opt (show_packed (fun ro => dig_path (path ro))) (r_route r)
+                ++ " t=" ++ show_opt (show_packed dig_tree) (r_tree r)
+      | Err c => "ERR(" ++ c ++ ")"
+      | _ => "PANIC"
+      end
+  | _ => "BUILDERR"
+  end.
+
+(* the specification, from the generators alone *)
+Definition long_fmt_s (kind n : nat) (with_tree : bool) (f : format) : string :=
+  let route := long_route kind n in
+  let tree := long_tree kind n in
+  let stored e := nth e (map long_geom (seq 0 n)) [] in
+  let geo := match f with Wkt | Wkb | GeoJson => true | _ => false end in
+  let missing := existsb (fun t => negb (Nat.ltb (edge_id t) n)) route in
+  format_name f ++ " " ++
+  if geo && missing then "ERR(missing_geometry)"
+  else
+    let feat (t : trav) : list Z :=
+      ([Z.of_nat (edge_id t); Z.of_nat (List.length (stored (edge_id t)))]
+         ++ flat_pts (stored (edge_id t)) ++ flat_trav t)%list in
+    "r=" ++ (match f with
+             | EdgeId => show_dig n (dig (map (fun t => Z.of_nat (edge_id t)) route))
+             | Json => show_dig n (dig (flat_map flat_trav route))
+             | GeoJson => show_dig n (dig (flat_map feat route))
+             | Wkt | Wkb => let g := flat_map (fun t => stored (edge_id t)) route in
+                            show_dig (List.length g) (dig (flat_pts g))
+             end)
+    ++ " t=" ++ (if with_tree then
+                   match f with
+                   | EdgeId => show_dig n (msum (map (fun vb => [Z.of_nat (edge_id (edge_traversal (snd vb)))]) tree))
+                   | Json => show_dig n (msum (map (fun vb => Z.of_nat (terminal_vertex (snd vb)) :: flat_trav (edge_traversal (snd vb))) tree))
+                   | GeoJson => show_dig n (msum (map (fun vb => feat (edge_traversal (snd vb))) tree))
+                   | Wkt | Wkb => show_dig n (msum (map (fun vb => let l := stored (edge_id (edge_traversal (snd vb))) in
+                                                                    Z.of_nat (List.length l) :: flat_pts l) tree))
+                   end
+                 else "null").
+
+(* the implementation renders every long case [reps] times (its defect classes are schedule dependent) *)
+Definition long_line (tag : string) (fmt : nat -> nat -> bool -> format -> string) (id : Z) (kind n : nat)
+           (with_tree : bool) (reps : nat) : string :=
+  let one := join "; " (map (fmt kind n with_tree) all_formats) ++ "; agree=T" in
+  line tag id (join " || " (repeat one reps)).
+Definition line_m_long := long_line "M" long_fmt_m.
+Definition line_s_long := long_line "S" long_fmt_s.
